@@ -28,6 +28,14 @@ def make_cases(rng, tier, diff_here):
             rules = rules_with_failing(5, (i,))
             rules[i]["kind"] = "bigfail"
             cases.append(base("ExecuteDAGModel", rules, layers=ly, hold=NAMES[i]))
+    # very WIDE layers (70 and 130 names: each rule named many times, every occurrence runs): with and without a failing rule early
+    # in the layer — the whole layer runs, the next one only when nothing failed
+    for width in (70, 130):
+        for f in ((), (0,), (2,)):
+            rules = rules_with_failing(4, f)
+            wide = [NAMES[i % 3] for i in range(width)]
+            cases.append(base("ExecuteDAGModel", rules, layers=[wide, [NAMES[3]]]))
+            cases.append(base("ExecuteDAGModel", rules, layers=[[NAMES[3]], wide]))
     n_rand = 150 if tier == "quick" else 5000
     for _ in range(n_rand):
         cases.append(rand_case(rng, "ExecuteDAGModel", maxk=6 if tier == "quick" else 10))
@@ -35,7 +43,7 @@ def make_cases(rng, tier, diff_here):
 
 
 RULE = ("systematic: 13 layerings (0-4 layers, empty layers, unknown names incl. the empty string, duplicate names, widths 1-3) x failing subsets (none, each single rule, pairs) x fresh/previously-used engine, "
-        "one rule held at its gate in most calls so that a missing layer barrier shows in the trace; random: 150 (thorough 5000) layerings.")
+        "layers 70 and 130 names wide; one rule held at its gate in most calls so that a missing layer barrier shows in the trace; random: 150 (thorough 5000) layerings.")
 
 
 def main(run):
